@@ -105,6 +105,13 @@ def gen_gp_input(rng, differentiable=False, well_conditioned=False, allow_multit
     xs[0] = list(pts[0])                                     # query on a training point
   if not well_conditioned and rng.random() < 0.15:
     xs[-1] = [v + 30.0 for v in xs[-1]]                      # far away
+  if idx is not None and len(idx) >= 2 and not well_conditioned and rng.random() < 0.15:
+    # inputs far from the origin relative to their spread (a parameter living in [2000, 2020]): the columns of the polynomial matrix are
+    # nearly collinear, the GLS coefficients are still determined (the saddle-point reference works in extended precision with refinement)
+    off, k = rng.choice([400.0, 2000.0]), rng.randrange(dim)
+    for row in pts + xs:
+      row[k] = off + 20.0 * row[k]
+    cov["hp"][1 + k] *= 20.0
   return dict(points=pts, values=vals, noise=noise, cov=cov, mean_idx=idx, tikhonov=tik, xs=xs)
 
 
@@ -152,7 +159,13 @@ def reference_posterior(inp):
   Kss = numpy.array([[kern(inp["cov"], xs[i], xs[j]) for j in range(m)] for i in range(m)], dtype=numpy.longdouble)
   cov = Kss - Ks @ KinvKs
   # first-order sensitivity of mean / variance to an error dk in the cross-kernel entries: |a|_1 and max_i |card_i|_1
-  extra = dict(a_l1=float(numpy.abs(a).sum()), card_l1=float(numpy.abs(KinvKs).sum(axis=0).max()) if m else 0.0)
+  extra = dict(a_l1=float(numpy.abs(a).sum()), card_l1=float(numpy.abs(KinvKs).sum(axis=0).max()) if m else 0.0, gls_cond=1.0, pb_l1=0.0)
+  if p:
+    # conditioning of the GLS step (P' K^-1 P) b = P' K^-1 y and the size of the polynomial part |P_eval| |b|: the library solves that system
+    # with a Cholesky factorisation in double precision, forward error ~ eps * cond * |P_eval| |b|
+    Mg = (P.T @ numpy.linalg.solve(K64, P.astype(float)).astype(numpy.longdouble)).astype(float)
+    extra["gls_cond"] = float(numpy.linalg.cond(Mg))
+    extra["pb_l1"] = float((numpy.abs(Ps) @ numpy.abs(b)).max()) if m else 0.0
   reference_posterior.extra = extra
   return numpy.array(mean, dtype=float), numpy.array(numpy.diag(cov), dtype=float), numpy.array(cov, dtype=float), float(numpy.linalg.cond(K64))
 
